@@ -299,3 +299,40 @@ def argv_case():
                 if not ok:
                     bad.append((f"{fmt}: option `{k}` is not on the command line and must keep the value of the file", got, v))
     return bad
+
+
+def relative_project_file():
+    """`ford proj/doc.md` from the parent directory (a relative path with a directory part) means the same as the absolute path or a run from inside `proj`: every path option is
+    relative to the project file; and `--exclude_dir` on the command line replaces the file's list but the output directory stays excluded from the search for sources"""
+    import sys
+    init = loader.import_init()
+    bad = []
+    files = {"proj/src/a.f90": "module a\nend module a\n", "proj/pages/index.md": "---\ntitle: t\n---\nx\n",
+             "proj/doc.md": "---\nproject: demo\npreprocess: false\nsrc_dir: ./src\noutput_dir: ./out\npage_dir: ./pages\nmedia_dir: ./media\ninclude: ./inc\nexclude_dir: ./src/old\n---\n\nText\n"}
+    keys = ("src_dir", "output_dir", "page_dir", "media_dir", "include", "md_base_dir", "exclude_dir")
+    with realrun.project_dir(files) as d:
+        got = {}
+        for label, cwd_, arg, extra in (("absolute", realrun.TMPROOT, os.path.join(d, "proj", "doc.md"), []), ("relative with a directory part", d, os.path.join("proj", "doc.md"), []),
+                                        ("exclude_dir on the command line", d, os.path.join("proj", "doc.md"), ["--exclude_dir", "tmp"])):
+            cwd, argv = os.getcwd(), sys.argv
+            os.chdir(cwd_)
+            sys.argv = ["ford", arg] + extra
+            out = io.StringIO()
+            try:
+                with contextlib.redirect_stdout(out), contextlib.redirect_stderr(out):
+                    data, docs = init.initialize()
+                rel = lambda p: os.path.relpath(str(p), os.path.join(d, "proj"))
+                got[label] = {k: (sorted(rel(x) for x in getattr(data, k)) if isinstance(getattr(data, k), list) else rel(getattr(data, k))) for k in keys}
+            except BaseException as e:
+                got[label] = f"{type(e).__name__}: {e}"
+            finally:
+                os.chdir(cwd)
+                sys.argv = argv
+    want = {"src_dir": ["src"], "output_dir": "out", "page_dir": "pages", "media_dir": "media", "include": ["inc"], "md_base_dir": ".", "exclude_dir": ["out", "src/old"]}
+    for label in ("absolute", "relative with a directory part"):
+        if got[label] != want:
+            bad.append((f"project file given by a path that is {label}: path options relative to the directory of the project file", got[label], want))
+    g = got["exclude_dir on the command line"]
+    if not isinstance(g, dict) or "out" not in g["exclude_dir"] or g["src_dir"] != ["src"]:
+        bad.append(("--exclude_dir tmp without -o: the output directory of the file stays excluded", g if not isinstance(g, dict) else g["exclude_dir"], "a list that holds 'out'"))
+    return bad
